@@ -12,6 +12,7 @@ CONSTANTS
   EnableRevert = TRUE
   EnableInterrupts = TRUE
   FixPruneAtomicFloor = FALSE
+  FixSampleOnReorg = FALSE
 INIT Init
 NEXT Next
 VIEW view
